@@ -45,7 +45,7 @@ def search(S):
     for m in rep["mismatches"]:
         S.check("%s.%s" % (m["set"], m.get("function", m["file"])), m["kind"], m, False, None, m.get("why", ""), "generated C differs from the symbolic model (%s)" % m["kind"])
     for o in rep["option_failures"]:
-        cls = "with_mem=True" if o["options"].get("with_mem") is True and "force_canonical" in o["what"] else "options"
+        cls = "with_mem=True" if isinstance(o["options"], dict) and o["options"].get("with_mem") is True and "force_canonical" in o["what"] else "options"
         S.check("%s.generate_code" % o["set"], cls, o, False, None, o["what"], "generation fails / drops functions under an accepted option combination")
     for key, names in expected.items():
         if key == "comment":
